@@ -214,9 +214,11 @@ def _structured(tier):
       eq='moist', layers=5, integrator='imex_rk_sil3', nsteps=2, dt_s=1200.)
   add('pe-dry-1layer-atmos-mixedb', 'pe', 'atmospheric', C['corner-mixed-b'], grid=GRIDS['f10'],
       eq='dry', layers=1, integrator='imex_rk_sil3', nsteps=3, dt_s=1200.)
+  # every equation class in the quick tier too: the cloud-condensate class has its own virtual
+  # temperature code path
+  add('pe-cloud-default-probe', 'pe', 'default', C['probe'], grid=GRIDS['f8'], eq='cloud', layers=4,
+      integrator='imex_rk_sil3', nsteps=3 if tier == 'thorough' else 2, dt_s=1200.)
   if tier == 'thorough':
-    add('pe-cloud-default-probe', 'pe', 'default', C['probe'], grid=GRIDS['f8'], eq='cloud', layers=4,
-        integrator='imex_rk_sil3', nsteps=3, dt_s=1200.)
     add('pe-moist-T21r-atmos-mixeda-8layers', 'pe', 'atmospheric', C['corner-mixed-a'],
         grid=GRIDS['T21r'], eq='moist', layers=8, integrator='crank_nicolson_rk3', nsteps=5, dt_s=1200.)
     add('pe-dry-T31-default-cornermin', 'pe', 'default', C['corner-min'],
